@@ -1,4 +1,4 @@
-import NeumannModel.Blob.Invariant
+import NeumannModel.Blob.ConcProofs
 /-
   C19 — property theorems for the blob store.  ONLY property statements and their
   non-vacuity examples live here; helpers are in `Lemmas.lean` / `Invariant.lean`.
@@ -69,6 +69,12 @@ theorem read_returns_streamed (hi : HashInj h) (cfg : Cfg) (ops₁ ops₂ : List
 theorem refs_invariant (hi : HashInj h) (cfg : Cfg) (ops : List Op) (k : K) :
     occ k (run h cfg State.init ops).arts ≤ refsOf k (run h cfg State.init ops).chunks :=
   (WF_reach h hi cfg ops).refs k
+
+/-- with equality for every history in which no writer is abandoned (dropped before `finish`) -/
+theorem refs_eq_occurrences (hi : HashInj h) (cfg : Cfg) (ops : List Op)
+    (hna : ∀ op ∈ ops, op.isAbandon = false) (k : K) :
+    refsOf k (run h cfg State.init ops).chunks = occ k (run h cfg State.init ops).arts :=
+  refsEq_run h hi cfg ops (WF_init h) (by intro k; simp [State.init, refsOf, occ]) hna k
 
 /-- hence every chunk a live artifact lists is present -/
 theorem live_chunks_present (hi : HashInj h) (cfg : Cfg) (ops : List Op) (p : Nat × Art K)
@@ -273,8 +279,29 @@ theorem concurrent_lost_update_witness :
     refsOf [1] before.1.chunks = 0 ∧ occ [1] before.1.arts = 1 ∧
     after.2.all Th.isDone = true ∧ liveIntact after.1 = false := by decide
 
+/-- PARTIAL (what is missing: collector threads).  For EVERY interleaving of the store steps of any number
+    of writers and deleters — overlapping content, in any phase (`ThOk`: no `gc`/`full_gc` thread, keys a
+    writer already pushed are present; freshly started threads qualify) — every existing artifact keeps all
+    its chunks: without a collector no step ever removes a chunk record.  (Refcounts may still be lost,
+    see `concurrent_lost_update_witness`; the damage needs a later collector.) -/
+theorem concurrent_no_collector_partial {K : Type} [DecidableEq K] (h : List Nat → K)
+    (s : State K) (ths : List (Th K)) (sched : List Nat)
+    (hl : liveIntact s = true) (hth : ∀ th ∈ ths, ThOk h s th) :
+    liveIntact (runSched h s ths sched).1 = true :=
+  (liveIntact_iff _).mpr (runSched_safe h sched ((liveIntact_iff s).mp hl) hth).1
+
 /-! non-vacuity -/
+example : ∀ th ∈ [Th.writer 0 0 [[1], [1]], Th.writer 1 0 [[1]], Th.deleter 0],
+    ThOk hid (State.init : State (List Nat)) th := by
+  intro th hth
+  simp only [List.mem_cons, List.not_mem_nil, or_false] at hth
+  rcases hth with e | e | e <;> subst e <;> simp [Th.writer, Th.deleter, ThOk]
 example : HashInj hid := hid_inj
+-- an abandoned writer leaves slack (refs 1, no artifact): `gc_cycle` never takes the record, `full_gc` does
+example : let s := run hid cfg2 State.init [.abandon 0 [[1, 2, 3]]]
+    refsOf [1, 2] s.chunks = 1 ∧ occ [1, 2] s.arts = 0 ∧
+    (gcSel 100 (fun _ => true) s).1.chunks = s.chunks ∧ (fullGc s).1.chunks = [] := by decide
+example : ∀ op ∈ [Op.put 0 [1, 2, 3], .stream 1 [[1], [2, 3, 4]], .delete 0, .gcAll 9 0, .repair], op.isAbandon = false := by decide
 example : get (run hid cfg2 (put hid cfg2 0 (run hid cfg2 State.init [.put 0 [9, 9, 9]]) [1, 2, 3]).1
     [.delete 0, .gcAll 10 1, .fullGc, .repair]) 1 = .ok [1, 2, 3] :=
   read_returns_written hid hid_inj cfg2 [.put 0 [9, 9, 9]] [.delete 0, .gcAll 10 1, .fullGc, .repair] 0 [1, 2, 3] 1
